@@ -17,7 +17,7 @@ except Exception as e: m = {"note": "seeder meta.json unreadable: %s" % e}
 m.setdefault("property", name.split("-")[0])
 m["origin"] = "fresh sub-agent given only the property text, the summary of the round-1 seed (to pick a different mechanism) and a scratch worktree"
 m["confirmed_by"] = "tools/verify_seed.sh in a scratch worktree of /repo HEAD %s: %s" % (head, res)
-m["origin"] = m["origin"].replace("the summary of the round-1 seed", "the summaries of the earlier seeds of this property") if (name[-2:] in ("-c", "-d", "-e", "-f", "-g", "-h", "-i", "-j", "-k", "-l", "-m")) else m["origin"]
+m["origin"] = m["origin"].replace("the summary of the round-1 seed", "the summaries of the earlier seeds of this property") if (name[-2:] in ("-c", "-d", "-e", "-f", "-g", "-h", "-i", "-j", "-k", "-l", "-m", "-n", "-o", "-p")) else m["origin"]
 json.dump(m, open(dst, "w"), indent=1)
 E
 echo "$N ADOPTED"
